@@ -190,7 +190,7 @@ fn family<T: Family + ?Sized>(ctx: &mut Ctx, arena: &Arena, max: usize) {
 
 fn run(ctx: &mut Ctx) {
     let arena = Arena::new(2);
-    let max = if ctx.quick() { 96 } else { 160 };
+    let max = if ctx.quick() { 96 } else { 512 };
     ctx.bound("family", format!("user-defined tag types following the MaybeDynSized contract: sized with 0..=6 extra u32 words; DSTs with element sizes 1,2,3,4,8,24 and fixed parts 8,12,16,20,24 (where the element alignment allows): 33 types x every tag size 8..={}; via cast (tag flush against a guard page, fills A/B) and via BootInformation::get_tag", max));
     macro_rules! fam { ($($t:ty),*) => { $( family::<$t>(ctx, &arena, max); )* } }
     fam!(Sized0, Sized1, Sized2, Sized3, Sized4, Sized5, Sized6);
